@@ -75,6 +75,19 @@ def refs_paired(r, F):
     if n < 7:
         r.fail(None, "sources", "only %d call sites of incrementing shard methods found outside the shard (expected >= 7: get x3, get_or_fetch_inner x3, remove)" % n)
 
+    # conversely: a shard method that hands a record out (to become a handle) counts it on EVERY path that returns Some(record) — a conditional increment
+    # leaves a handle whose drop decrements a count that was never taken (underflow / release while other handles are alive)
+    for name in ("remove", "get_inner"):
+        f = F.method(SHARD, name)
+        bodies = [g for g in [f] + F.descendants(f) if g.calls_to(INC)]
+        okc = False
+        for g in bodies:
+            incs_g = [b for b in g.calls_to(INC) if b.term.args[1].is_const() and b.term.args[1].const_val() == 1]
+            none = [b.idx for b in g.calls_to(r"FromResidual")] + [b.idx for b in g.blocks if not b.cleanup for s_ in b.stmts
+                                                                if s_.k == "assign" and s_.place.local == 0 and s_.rv.k == "agg" and s_.rv.j.get("variant") == "None"]
+            okc = okc or (bool(incs_g) and g.must_pass(0, [b.idx for b in incs_g] + none))
+        r.require(okc, f, "%s: every returned record is counted" % name, "inc_refs(1) on every path that returns Some(record)",
+                  "RawCacheShard::%s can return a record without counting the reference of the handle built from it" % name, ln=f.lo)
     # emplace: inc_refs(notifiers.len() + 1)
     em = F.method(SHARD, "emplace")
     for b in em.calls_to(INC):
@@ -317,7 +330,8 @@ def outdated(r, F):
     for g in [ins] + F.descendants(ins):
         for b in g.calls_to(r"set_in_indexer$"):
             vals.setdefault(b.term.args[1].const_val(), []).append((g, b))
-    r.require(1 in vals and 0 in vals, ins, "Sentry::insert sets true/new false/old", "insert marks the new record and unmarks the replaced one",
+    uncond_ins = all(g.must_pass(0, [x.idx for x in g.calls_to(r"set_in_indexer$")]) for v in vals.values() for g, _ in v)
+    r.require(1 in vals and 0 in vals and uncond_ins, ins, "Sentry::insert sets true/new false/old", "insert marks the new record and unmarks the replaced one",
               "Sentry::insert does not set the flag on the new record and clear it on the replaced one", ln=ins.lo)
     if 1 in vals:
         g, b = vals[1][0]
@@ -328,7 +342,9 @@ def outdated(r, F):
         fn2 = F.method(S, name, "Indexer")
         bodies = [fn2] + F.descendants(fn2)
         cs = [(g, b) for g in bodies for b in g.calls_to(r"set_in_indexer$")]
-        r.require(bool(cs) and all(b.term.args[1].const_val() == 0 for _, b in cs), fn2, "Sentry::%s clears flag" % name,
+        # ... on every path of the body that performs it (no further condition inside the inspect closure / after the call)
+        uncond = all(g.must_pass(0, [x.idx for x in g.calls_to(r"set_in_indexer$")]) for g, _ in cs)
+        r.require(bool(cs) and uncond and all(b.term.args[1].const_val() == 0 for _, b in cs), fn2, "Sentry::%s clears flag" % name,
                   "records leaving the index are unmarked", "Sentry::%s does not clear the in-indexer flag of the records it hands out" % name, ln=fn2.lo)
 
 
